@@ -82,6 +82,10 @@ def run(chk, tier, seed, replay=None):
             o['j'] = r.choice([2, 3])
         if r.random() < 0.3:
             o['color'] = True        # the colourising formatter has code paths of its own
+        if r.random() < 0.15:
+            o['progress'] = True
+        if r.random() < 0.08:
+            o['verbose'] = 4
         return o
     allk = list(worlds.OUTCOMES)
     prof_a = {'sweep': True, 'kinds': 'mixed', 'hooks': 'random',
